@@ -372,7 +372,7 @@ def run_tlc(tier, families, guards=True, invariants=INVARIANTS, export=True, bou
     behs = []
     try:
         res = tlc.run("MC_PyClass", cfg, on_tagged=lambda t, v: behs.append(v), collect_tags=False,
-                      coverage=coverage, timeout=3000)
+                      coverage=coverage, timeout=3000, java_opts=("-Xmx4g",))
     finally:
         os.unlink(cfg)
     return res, behs
@@ -437,8 +437,19 @@ def main(tier):
             featured = [b for b in lst if b["feats"]]
             plain = [b for b in lst if not b["feats"]]
             rnd.shuffle(featured)
-            rnd.shuffle(plain)
-            chosen += plain[:220] + featured[:50]
+            # stratified: every (class variant, request target) stratum of the family gets its share,
+            # so that rare targets (a function nested in a method ...) are always in the sample
+            strata = {}
+            for b in plain:
+                strata.setdefault((b["variant"], json.dumps(b["req"]["tgt"]), b["req"]["glob"]), []).append(b)
+            for k in sorted(strata):
+                rnd.shuffle(strata[k])
+            picked = []
+            while len(picked) < 220 and any(strata.values()):
+                for k in sorted(strata):
+                    if strata[k] and len(picked) < 220:
+                        picked.append(strata[k].pop())
+            chosen += picked + featured[:50]
     else:
         # everything, except that the Encapsulate family (3/4 of all behaviours) is thinned to a
         # seeded 30 % of its plain programs; featured ones are all kept
